@@ -109,6 +109,9 @@ func errDesc(v bitexec.Value) string {
 		}
 		return e.Desc
 	}
+	if p, ok := v.(bitexec.Ptr); ok && p.Obj != nil {
+		return "&" + p.Obj.Type[strings.LastIndex(p.Obj.Type, ".")+1:] + "{…}"
+	}
 	return fmt.Sprintf("%T", v)
 }
 
@@ -402,9 +405,28 @@ func (h *bitHarness) scalar(k bitKind, tagTop int, tagConst uint64, valueConst *
 				c.Check("Decode"+k.dec+" returns the value written", sameValue(k, r[0], raw), fmt.Sprintf("decoded %v", r[0]))
 				off, oko := constOf(dec.Fields["offset"])
 				c.Check("the decoder consumed exactly the bytes written", oko && off == n, fmt.Sprintf("wrote %d, cursor at %v", n, dec.Fields["offset"]))
+				h.skipCheck(c, p, mode, int(n))
 			}
 		}
 	}
+}
+
+// skipCheck: DecodeTag followed by Skip returns exactly the field (key and payload) and leaves the cursor behind it.
+func (h *bitHarness) skipCheck(c *bitexec.Ctx, p bitexec.Bytes, mode uint64, n int) {
+	dec := h.newDecoder(p, mode)
+	r := h.call("(*Decoder).DecodeTag", bitexec.Ptr{Obj: dec})
+	if !errNil(r[2]) {
+		return
+	}
+	s := h.call("(*Decoder).Skip", bitexec.Ptr{Obj: dec}, r[0], r[1])
+	c.Check("Skip accepts the field", errNil(s[1]), "error "+errDesc(s[1]))
+	if !errNil(s[1]) {
+		return
+	}
+	got, ok := s[0].(bitexec.Bytes)
+	c.Check("Skip returns the complete field (key and payload)", ok && got.Buf == p.Buf && got.Off == p.Off && got.Len == n, fmt.Sprintf("returned [%d:%d] of a %d-byte field", got.Off-p.Off, got.Off-p.Off+got.Len, n))
+	off, oko := constOf(dec.Fields["offset"])
+	c.Check("Skip leaves the cursor behind the field", oko && int(off) == n, fmt.Sprint(dec.Fields["offset"]))
 }
 
 func maxInt(a, b int) int {
@@ -515,6 +537,7 @@ func (h *bitHarness) bytesField(length int, tagConst uint64) func(c *bitexec.Ctx
 					}
 				}
 				c.Check("DecodeBytes returns the bytes written", same, fmt.Sprintf("decoded %d bytes", got.Len))
+				h.skipCheck(c, p, mode, int(n))
 				off, oko := constOf(dec.Fields["offset"])
 				c.Check("the decoder consumed exactly the bytes written", oko && off == n, fmt.Sprintf("wrote %d, cursor at %v", n, dec.Fields["offset"]))
 			}
